@@ -114,6 +114,12 @@ fn run_pair(s: (u64, u64), r: (u64, u64), ls: &[Kv], lr: &[Kv], out: &mut PairOu
             return;
         }
     };
+    // the sender's copy as of the moment it computed the delta (processing the SYN must not have changed it,
+    // but that is another property's business)
+    let sc = read_copy(&sender, &xc).unwrap_or(sc);
+    let s = (sc.0, sc.1);
+    let ahead = s.1 > r.1;
+    let reset_expected = ahead && r.0 < s.0 && r.1 < s.0;
     let (wmsg, _, _) = codec::decode_msg(&reply.1).expect("independent decode of a real SYN-ACK");
     let nodes = codec::group_ops(codec::msg_ops(&wmsg)).unwrap_or_default();
     let nd: Option<&WNodeDelta> = nodes.iter().find(|n| n.id == x);
@@ -187,7 +193,9 @@ fn run_pair(s: (u64, u64), r: (u64, u64), ls: &[Kv], lr: &[Kv], out: &mut PairOu
         let empty = n.kvs.is_empty() && !n.had_set_max;
         let b = (before.0, before.1);
         let a = (after.0, after.1);
-        let was_reset = a.0 > b.0;
+        // a wipe is observed (watermark became the delta's and nothing of the old copy survived unless the delta
+        // carries it too), not inferred from the watermark alone
+        let was_reset = n.from == 0 && a.0 > b.0 && a.0 == n.last_gc && !before.2.iter().any(|(k, e0)| after.2.get(k).map(|e1| e1.0 == e0.0).unwrap_or(false) && !n.kvs.iter().any(|kv| &kv.key == k && kv.version == e0.0));
         if a < b {
             out.findings.push(Finding::new(&["C04", "C14"], "pair.frontier_decreased", format!("{who} [{label}]: receiver frontier {b:?} -> {a:?}")));
         }
@@ -405,8 +413,10 @@ pub fn run_c04_scope(args: &Args, deadline: &Deadline) -> (PairOut, bool) {
                 }
             }
             let cb = node.cb.load(Ordering::SeqCst) - cb0;
-            if cb != wiped as usize {
-                out.findings.push(Finding::new(&["C20"], "scope.catchup_count", format!("copy {b:?} + delta (gc {dgc}, from {from}, kvs {kvs:?}, tail {tail:?}): wiped = {wiped}, callback ran {cb} times")));
+            // the callback is owed for a rebuilt copy: watermark became the delta's, delta starts from 0, nothing old survived
+            let rebuilt = wiped && *from == 0 && a.0 == *dgc && !before.2.iter().any(|(k, e0)| after.2.get(k).map(|e1| e1.0 == e0.0).unwrap_or(false) && !kvs.iter().enumerate().any(|(j, (v, _))| ["k0", "k1", "a", "new"][(j + *v as usize) % 4] == k && *v == e0.0));
+            if cb != rebuilt as usize {
+                out.findings.push(Finding::new(&["C20"], "scope.catchup_count", format!("copy {b:?} + delta (gc {dgc}, from {from}, kvs {kvs:?}, tail {tail:?}): rebuilt = {rebuilt}, callback ran {cb} times")));
             }
         }
         Some(out)
